@@ -74,3 +74,20 @@ Proof. reflexivity. Qed.
 Example C18_track_refuses : track false [evSec c_GoneInsecure] = None /\ track true [evSec c_GoneSecure] = None /\
   track false [evSec c_StillSecure] = None.
 Proof. vm_compute; auto. Qed.
+
+(* the texts that travel: in every history of a new conversation every text that leaves - in the clear, as payload of a
+   data message, released from the queue after a key exchange or sent again on the peer's request - is empty
+   (heartbeats, TLV carriers), a text the user has given to Send up to that call, or such a text behind the resend marker;
+   and nothing else is ever queued (Proto/Provenance.v) *)
+From OTR Require Import Proto.Provenance.
+Theorem C18_only_sent_texts_travel : forall who pol key h, all_provenance [] (conv_init who pol key) h.
+Proof. exact only_sent_texts_travel. Qed.
+Print Assumptions C18_only_sent_texts_travel.
+
+Theorem C18_call_keeps_provenance : forall S now op, (match op with CSend t => In t S | _ => True end) ->
+  forall c, PInv S c -> let '(c', r) := step now c op in PInv S c' /\ okl S (r_out r).
+Proof. exact pv_step. Qed.
+Print Assumptions C18_call_keeps_provenance.
+
+Example C18_texts_example : r_out (snd (step 0 (conv_init 1 6 1) (CSend [104; 105]))) = [WPlain [104; 105] None].
+Proof. vm_compute; reflexivity. Qed.
